@@ -19,10 +19,14 @@ OIDS_BAD = ["5B6A1B40-2BD4-4A12-8F3C-0A1B2C3D4E5F",          # upper case (valid
             "{5b6a1b40-2bd4-4a12-8f3c-0a1b2c3d4e5f}",        # braced (valid spelling)
             "5b6a1b402bd44a128f3c0a1b2c3d4e5f",              # no dashes (valid spelling)
             "5b6a1b40-2bd4-4a12-8f3c",                        # truncated
-            "garbage", "", "zzzzzzzz-zzzz-zzzz-zzzz-zzzzzzzzzzzz", "1"]
+            "garbage", "", "zzzzzzzz-zzzz-zzzz-zzzz-zzzzzzzzzzzz", "1",
+            # spellings only Python's uuid parser accepts (sign, separators, white space): the
+            # library delegates the syntax to it; whatever it decides, the stored id is canonical
+            "+" + "a" * 31, "a_" * 15 + "aa", " " + "a" * 31, "a" * 31 + "\n",
+            "urn:uuid:5b6a1b40-2bd4-4a12-8f3c-0a1b2c3d4e5f", "5b6a1b40-2bd4-4a12-8f3c-0a1b2c3d4e5", 7]
 
 DTYPES = ["string", "text", "int", "float", "url", "datetime", "date", "time", "boolean",
-          "person", "2-tuple", "3-tuple"]
+          "person", "2-tuple", "3-tuple", "1-tuple", "10-tuple", "12-tuple"]
 
 # shape table: per dtype native values, text forms and near misses (tagged JSON)
 VALUE_TABLE = {
@@ -55,6 +59,15 @@ VALUE_TABLE = {
                 "near": ["(1;2;3)", "1;2", {"list": ["1", "2", "3"]}, "(1)", {"list": [1, 2]}]},
     "3-tuple": {"good": [{"list": ["1", "2", "3"]}], "text": ["(1;2;3)"],
                 "near": ["(1;2)", {"list": ["1", "2"]}]},
+    # the count is a number, not a digit
+    "1-tuple": {"good": [{"list": ["1"]}], "text": ["(1)", "(a)"],
+                "near": ["(1;2)", {"list": ["1", "2"]}, "()"]},
+    "10-tuple": {"good": [{"list": [str(i) for i in range(10)]}],
+                 "text": ["(0;1;2;3;4;5;6;7;8;9)"],
+                 "near": ["(1)", {"list": ["1"]}, "(0;1;2;3;4;5;6;7;8)", "(1;2)"]},
+    "12-tuple": {"good": [{"list": [str(i) for i in range(12)]}],
+                 "text": ["(a;b;c;d;e;f;g;h;i;j;k;l)"],
+                 "near": ["(1)", {"list": ["1", "2"]}, "(1;2)", "(0;1;2;3;4;5;6;7;8;9)"]},
 }
 SPECIAL_INPUTS = [None, "", {"list": []}, {"tuple": []}, "[a, b]", "[1, 2, 3]", "(1;2)", {"dict": {"a": 1}},
                   {"list": [1, "a"]}, {"list": ["", "x"]}, {"tuple": [1, 2]}, "[(1;2),(3;4)]"]
